@@ -457,6 +457,22 @@ func genC12(g *Gen) {
 			g.Add(c)
 		}
 	}
+	// the root of a tree attached below one of its own descendants through a child handle: what is
+	// attached is a copy of the tree at that moment
+	for i := 0; i < 6; i++ {
+		init := map[string]interface{}{"a": map[string]interface{}{"k": randScalar(r), "sub": map[string]interface{}{"x": randScalar(r)}}, "b": randScalar(r)}
+		hn := []string{"a", "a.sub"}[r.Intn(2)]
+		ops := []c12Op{
+			{Kind: "setchild-self", Name: "up", Idx: -1, OnH: true, HName: hn, HIdx: -1},
+			{Kind: "set", Name: "a.y", Idx: -1, Val: "later"},
+			{Kind: "set", Name: hn + ".up.b", Idx: -1, Val: uint64(9)},
+		}
+		probes := []addrT{{hn + ".up." + hn + ".up", -1}, {hn + ".up.a.y", -1}, {hn + ".up.b", -1}, {"b", -1}, {hn + ".up.a.k", -1}}
+		if c, ok := c12Run(".", init, probes, ops); ok {
+			c.Tags = append(c.Tags, "root-below-descendant")
+			g.Add(c)
+		}
+	}
 	for i := 0; i < g.N; i++ {
 		sep := "."
 		if r.P(1, 4) {
